@@ -132,6 +132,8 @@ class Crazyflie():
         self.packet_received.add_callback(self._check_for_answers)
 
         self._answer_patterns = {}
+        # Protects the retry timers in _answer_patterns (timer threads, incoming thread and senders)
+        self._answer_patterns_lock = Lock()
 
         self._send_lock = Lock()
         # Thread that is inside send_packet() and a link error it got reported while there
@@ -325,10 +327,11 @@ class Crazyflie():
 
     def _cancel_pending_answers(self):
         """Forget all pending retries, they belong to the link that is now closed"""
-        pending = self._answer_patterns
-        self._answer_patterns = {}
-        for timer in list(pending.values()):
-            timer.cancel()
+        with self._answer_patterns_lock:
+            pending = self._answer_patterns
+            self._answer_patterns = {}
+            for timer in list(pending.values()):
+                timer.cancel()
 
     def _no_answer_do_retry(self, pk, pattern, timeout=0.2):
         """Resend packets that we have not gotten answers to"""
@@ -356,9 +359,10 @@ class Crazyflie():
                             logger.debug('Found new longest match %s', match)
                             longest_match = match
         if len(longest_match) > 0:
-            timer = answer_patterns.pop(longest_match, None)
-            if timer is not None:
-                timer.cancel()
+            with self._answer_patterns_lock:
+                timer = answer_patterns.pop(longest_match, None)
+                if timer is not None:
+                    timer.cancel()
 
     def send_packet(self, pk, expected_reply=(), resend=False, timeout=0.2):
         """
@@ -389,21 +393,25 @@ class Crazyflie():
                                       lambda: self._no_answer_do_retry(pk,
                                                                        pattern,
                                                                        timeout))
-                    self._answer_patterns[pattern] = new_timer
-                    new_timer.start()
+                    with self._answer_patterns_lock:
+                        self._answer_patterns[pattern] = new_timer
+                        new_timer.start()
                 elif resend:
                     # Check if we have gotten an answer, if not try again
                     pattern = expected_reply
-                    if pattern in self._answer_patterns:
-                        logger.debug('We want to resend and the pattern is there')
-                        if self._answer_patterns[pattern]:
+                    # The incoming thread removes the pattern when the answer arrives: test and
+                    # re-arm in one step, or an answered request would be retried again
+                    with self._answer_patterns_lock:
+                        still_pending = pattern in self._answer_patterns
+                        if still_pending:
+                            logger.debug('We want to resend and the pattern is there')
                             new_timer = Timer(timeout,
                                               lambda:
                                               self._no_answer_do_retry(
                                                   pk, pattern, timeout))
                             self._answer_patterns[pattern] = new_timer
                             new_timer.start()
-                    else:
+                    if not still_pending:
                         # Answered (or the link was closed) since the timer was started
                         logger.debug('Resend requested, but no pattern found: %s',
                                      self._answer_patterns)
